@@ -20,6 +20,7 @@ from .dimproj import dimstr, project_dim
 from .tlc import Scratch, parse_tla_tuple, run_tlc, write_cfg
 
 PID = "C07"
+TEMP_TICK = 10**6      # temperatures of the model are millionths of a degree
 
 ALL_UNITS = {"one", "percent", "rad", "aq", "m", "km", "cm", "mm", "kilo_m", "milli_m", "inch", "s", "minute", "hour", "ms",
              "kg", "gram", "tonne", "newton", "kN", "joule", "Nm", "Wh", "watt", "pascal", "kPa", "hertz", "rad_s",
@@ -30,13 +31,16 @@ CFG = {
     "quick": dict(UnitNames=ALL_UNITS, ValueNames={"v1", "v2", "vm3", "vh", "v75"}, MaxChain=2,
                   ExprOps={"mul", "div", "add", "sub", "sq", "scale"},
                   ExprUnits={"m", "km", "s", "hour", "kg", "newton", "one", "percent"}, ExprVals={"v2", "vh"},
-                  Temps={30000 + t for t in (-27315, -4000, 0, 2500, 10000, 27315)}),
+                  Temps={300000000 + t for t in (-273150000, -40000000, 0, 25000000, 100000000, 273150000,
+                                                 15000, 4222100, 21456000, 300123456, -268927899)}),
     "thorough": dict(UnitNames=ALL_UNITS, ValueNames={"v1", "v2", "vm3", "vh", "v75", "v1000", "vmil", "v0"}, MaxChain=3,
                      ExprOps={"mul", "div", "add", "sub", "sq", "scale"},
                      ExprUnits={"m", "km", "cm", "inch", "s", "hour", "ms", "kg", "gram", "newton", "kN", "joule", "Wh",
                                 "one", "percent", "rad", "aq", "kmh", "liter", "kelvin"},
                      ExprVals={"v2", "vh", "vm3", "v75"},
-                     Temps={30000 + t for t in (-27315, -27314, -4000, -1, 0, 1, 2500, 3677, 10000, 27315, 29999)}),
+                     Temps={300000000 + t for t in (-273150000, -273149999, -40000000, -1, 0, 1, 25000000, 36770000,
+                                                    100000000, 273150000, 299990000, 15000, 4222100, 21456000, 300123456,
+                                                    -268927899, 1234567, 77355001, 1357246801)}),
 }
 INVARIANTS = ["TypeOK", "ValuePreserved", "Composition", "Inverse", "OwnSIUnit", "RefusalExact", "Linear",
               "EvaluationPreservesValue", "TempInverse"]
@@ -59,6 +63,7 @@ def _real():
         _R = dict(
             sp=sp, Quantity=Quantity, convert_to=convert_to, convert_to_si=convert_to_si,
             convert_to_float=convert_to_float, evaluate_expression=evaluate_expression, celsius=celsius, units=units,
+            millikelvin=Quantity(sp.Rational(1, 1000) * units.kelvin),
             unit={
                 "one": sp.S.One, "percent": u.percent, "rad": u.radian, "aq": Quantity(1, dimension=angle_type),
                 "m": u.meter, "km": u.kilometer, "cm": u.centimeter, "mm": u.millimeter,
@@ -192,7 +197,7 @@ def replay_temp(case):
     c = r["celsius"]
     out = []
     tol = 1e-9
-    v = case["t0"] / 100
+    v = case["t0"] / TEMP_TICK
     scale = case["s0"]
     for _ in range(case["steps"]):
         if scale == "C":
@@ -202,7 +207,7 @@ def replay_temp(case):
                 if abs(vq - v2) > tol:
                     out.append((None, f"to_kelvin_quantity({v} C) = {vq} K, to_kelvin = {v2}"))
             except Exception as e:  # pylint: disable=broad-except
-                out.append((f"temp to_kelvin_quantity({round(v, 2)} C)", f"to_kelvin_quantity(Celsius({v})) raised {type(e).__name__}: {e}"))
+                out.append((f"temp to_kelvin_quantity({round(v, 6)} C)", f"to_kelvin_quantity(Celsius({v})) raised {type(e).__name__}: {e}"))
             v, scale = v2, "K"
         else:
             v2 = c.from_kelvin(v).value
@@ -210,13 +215,16 @@ def replay_temp(case):
                 vq = c.from_kelvin_quantity(r["Quantity"](v * r["units"].kelvin)).value
                 if abs(vq - v2) > tol:
                     out.append((None, f"from_kelvin_quantity({v} K) = {vq}, from_kelvin = {v2}"))
+                vm = c.from_kelvin_quantity(r["Quantity"](v * 1000 * r["millikelvin"])).value     # the same in millikelvin
+                if abs(vm - v2) > tol:
+                    out.append((None, f"from_kelvin_quantity({v * 1000} mK) = {vm}, from_kelvin({v}) = {v2}"))
             except Exception as e:  # pylint: disable=broad-except
-                out.append((f"temp from_kelvin_quantity({round(v, 2)} K)",
+                out.append((f"temp from_kelvin_quantity({round(v, 6)} K)",
                             f"from_kelvin_quantity(Quantity({v} * kelvin)) raised {type(e).__name__}: {e}"))
             v, scale = v2, "C"
-    want = case["v"] / 100
+    want = case["v"] / TEMP_TICK
     if scale != case["scale"] or abs(v - want) > tol:
-        out.append((None, f"after {case['steps']} step(s) from {case['t0'] / 100} {case['s0']}: code {v} {scale}, "
+        out.append((None, f"after {case['steps']} step(s) from {case['t0'] / TEMP_TICK} {case['s0']}: code {v} {scale}, "
                           f"model {want} {case['scale']}"))
     return out
 
